@@ -17,24 +17,24 @@ CHECKS = {
         category="model_checking",
         engine="E1-pysched + E2-virtual-backend",
         technique="stateless model checking of the real Parallel code: iterative pre-emption/deviation bounding over all interleavings of caller and completion-callback thread and all completion orders, under a controlled scheduler driven by sys.monitoring LINE events",
-        text="For each configuration (n_jobs x batch_size incl. 'auto' x pre_dispatch forms x return_as x N x input kind) every schedule within the bounds is executed on the real Parallel / BatchCompletionCallBack code and judged against the sequential reference (result list, each task executed exactly once, termination). This gives a coverage statement - no execution with <= PB pre-emptions and <= OB out-of-order completions violates the property - which the OS-scheduled test-suite cannot.",
-        note=PAR_NOTE,
-        design_ref="1.1, 1.2, 2/C01",
+        text="For each configuration (n_jobs x batch_size incl. 'auto' x pre_dispatch forms x return_as x N x input kind) every schedule within the bounds is executed on the real Parallel / BatchCompletionCallBack code and judged against the sequential reference (result list, each task executed exactly once, termination). This gives a coverage statement - no execution with <= PB pre-emptions and <= OB out-of-order completions violates the property - which the OS-scheduled test-suite cannot. The environment model is bound back to the shipped backends by a conformance part: the same oracle on free-running executions of the threading, loky and multiprocessing backends over the full product n_jobs x batch_size x pre_dispatch (incl. amounts below 1) x return_as x N x task-duration pattern.",
+        note=PAR_NOTE + " The real-backend part is exhaustive in configurations only (one OS-chosen schedule each); it is reported separately in the evidence and not counted in states/transitions.",
+        design_ref="1.1, 1.2, 2/C01, 10.2",
     ),
     "C02": dict(
         category="exploration",
         engine="E4-enumerators",
         technique="bounded-exhaustive enumeration (signatures x call shapes x argument slots x near-colliding typed values x cold/warm/fresh-process passes) end-to-end through the real Memory, undecorated function as reference",
-        text="Every signature with <= 3 (thorough 4) parameters as plain function, bound method, functools.partial and async def, with every accepted call shape, has every argument slot varied over 38 near-colliding typed values (1 / 1.0 / True, 'a' / b'a', list / tuple / set / frozenset / dict variants, -0.0, nan, ...) inside one cache directory, cold, warm through call_and_shelve().get() and warm in a fresh forked process; each returned value must equal the undecorated function's. All values share a directory, so every pair is checked for collisions.",
-        note="Functions are generated source files whose bodies return a typed rendering of what was bound. Fresh process = fork with the in-memory function table cleared; hash-seed variation is covered by C08. Lambdas/closures are outside the stated domain.",
+        text="Every signature with <= 3 (thorough 4) parameters as plain function, bound method, functools.partial and async def, with every accepted call shape, has every argument slot varied over 38 near-colliding typed values (1 / 1.0 / True, 'a' / b'a', list / tuple / set / frozenset / dict variants, -0.0, nan, ...) inside one cache directory, cold, warm through call_and_shelve().get() and warm in a fresh forked process; each returned value must equal the undecorated function's. All values share a directory, so every pair is checked for collisions. Cross-shape histories: all accepted call shapes of a signature with one common value in every slot on one directory (shapes that Python binds differently must not share an entry). Shared-directory groups: partials / bound methods / callable instances of different functions on one location, histories A, B, A.",
+        note="Functions are generated source files whose bodies return a typed rendering of what was bound. Fresh process = fork with the in-memory function table cleared; hash-seed variation is covered by C08. Which calls Python accepts is decided by the interpreter itself (shadow function with the same parameter list), not by inspect.Signature.bind. Lambdas/closures are outside the stated domain.",
         design_ref="2/C02",
     ),
     "C06": dict(
         category="exploration",
         engine="E4-enumerators",
-        technique="bounded-exhaustive enumeration of groups of call forms that Signature.bind maps to one binding, executed through the real Memory with an execution counter and check_call_in_cache as oracle",
-        text="For every signature with <= 4 (thorough 5) parameters in four function kinds and every target binding, all equivalent call forms (positional / keyword, defaults omitted / spelled out, surplus keywords in both orders) are issued on one cache directory, the second half in a fresh process for every third group: exactly one execution, check_call_in_cache true exactly when the next call does not execute, no accepted call raises; then clear() / reduce_size(items_limit=0) must force a re-execution; ignore=[p] for every parameter; dict and set arguments rebuilt in another insertion order.",
-        note="Equivalence is defined by inspect.Signature.bind + apply_defaults. functools.partial objects are not inspected by joblib (documented, pinned by the test-suite): their re-executions are listed in known_findings.json by signature.",
+        technique="bounded-exhaustive enumeration of groups of call forms that the interpreter binds identically, executed through the real Memory with an execution counter and check_call_in_cache as oracle",
+        text="For every signature with <= 4 (thorough 5) parameters in four function kinds and every target binding, all equivalent call forms (positional / keyword, defaults omitted / spelled out, surplus keywords in both orders) are issued on one cache directory, the second half in a fresh process for every third group: exactly one execution, check_call_in_cache true exactly when the next call does not execute, no accepted call raises; then clear() / reduce_size(items_limit=0) must force a re-execution; ignore=[p] for every parameter; dict and set arguments rebuilt in another insertion order. Parameter names: every identifier joblib itself uses as a parameter name on the cached-call path (72 names) as first parameter / keyword-only parameter / key received by **kw, passed by keyword through __call__, call, call_and_shelve and check_call_in_cache under Memory(verbose 0/1/50), including a call on a damaged entry.",
+        note="Equivalence is defined by the interpreter's own binding (locals() of a shadow function with the same parameter list). functools.partial objects are not inspected by joblib (documented, pinned by the test-suite): their re-executions are listed in known_findings.json by signature.",
         design_ref="2/C06",
     ),
     "C03": dict(
@@ -49,8 +49,8 @@ CHECKS = {
         category="model_checking",
         engine="E1-pysched + E2-virtual-backend",
         technique="stateless model checking (pre-emption / deviation bounded exploration of all interleavings, completion orders and late completions) of call programs on one real Parallel object",
-        text="Programs of 2-3 calls on one Parallel object over {ok, failing task at several positions, failing input iterator, never-completing task + timeout}, inside and outside a with block, are executed under every schedule within the bounds, with a pool-like environment and with a zombie environment whose late completions may be withheld and delivered at any later point (including inside the next call). Oracle: the failing call raises the exception of one of its executed tasks / of the iterator / TimeoutError, never returns; every call terminates (deadlock and hang verdicts of the scheduler); the following ok-call returns exactly its own results, each task once, and no batch of an earlier call is submitted during a later one.",
-        note=PAR_NOTE,
+        text="Programs of 2-3 calls on one Parallel object over {ok, failing task at several positions, failing input iterator, never-completing task + timeout}, inside and outside a with block, are executed under every schedule within the bounds, with a pool-like environment and with a zombie environment whose late completions may be withheld and delivered at any later point (including inside the next call). Oracle: the failing call raises the exception of one of its executed tasks / of the iterator / TimeoutError, never returns; every call terminates (deadlock and hang verdicts of the scheduler); the following ok-call returns exactly its own results, each task once, and no batch of an earlier call is submitted during a later one. Conformance part on the shipped backends (threading, loky, multiprocessing): failing task at first / middle / last position or failing input iterator x batch_size x pre_dispatch x return_as, then a second call on the same object.",
+        note=PAR_NOTE + " The real-backend part is exhaustive in configurations only (one OS-chosen schedule each).",
         design_ref="2/C04",
     ),
     "C09": dict(
@@ -65,16 +65,16 @@ CHECKS = {
         category="model_checking",
         engine="E1-pysched + E2-virtual-backend",
         technique="stateless model checking of consumer programs on the output generator; promptness decided as reachability under a withholding environment (hang verdict = result waited for a later task)",
-        text="Consumer programs (exhaust; pull one by one while the environment completes only what the requested result may depend on; close / drop / leave the with block after k results followed by a fresh call; a second call during an unfinished run) on return_as='generator' and 'generator_unordered' are explored under all schedules within the bounds. Oracle: submission order (ordered) or completion-registration order with each result once (unordered); every pull terminates under the withholding environment; abandonment terminates, stops dispatch, and the next call returns exactly its own results; overlapping call raises RuntimeError and leaves the first run intact.",
+        text="Consumer programs (exhaust; pull one by one while the environment completes only what the requested result may depend on; close / drop / leave the with block after k results followed by a fresh call; a second call during an unfinished run, also after the with block was left with the generator still alive) on return_as='generator' and 'generator_unordered' are explored under all schedules within the bounds. Oracle: submission order (ordered) or completion-registration order with each result once (unordered); every pull terminates under the withholding environment; abandonment terminates, stops dispatch, and the next call returns exactly its own results; overlapping call raises RuntimeError and leaves the first run intact.",
         note=PAR_NOTE,
         design_ref="2/C16",
     ),
     "C07": dict(
         category="exploration",
         engine="E4-enumerators",
-        technique="bounded-exhaustive enumeration of all signatures x call shapes against inspect.Signature.bind (small-scope model checking of the input space)",
+        technique="bounded-exhaustive enumeration of all signatures x call shapes against the interpreter's own binding (small-scope model checking of the input space)",
         text="Every parameter list with <= 5 (quick) / <= 7 (thorough) parameters over the five kinds x default/no-default, as plain function and bound method, with every call shape and ignore lists of size <= 2, is bound by the real filter_args and compared with Python's own binding. The space the property quantifies over (<= 5 parameters) is enumerated completely, so within it the verdict is exact.",
-        note="Trusts inspect.Signature.bind/apply_defaults of the running CPython as reference; functions are generated source files (plain def and methods); functools.partial and callables that are not functions/methods are outside filter_args' inspected domain.",
+        note="Reference = locals() returned by the generated function when the running CPython executes the call (inspect.Signature.bind is only cross-checked where it accepts the call: on 3.12 it rejects a keyword named like a defaulted positional-only parameter that Python routes to **kwargs); functions are generated source files (plain def and methods); functools.partial and callables that are not functions/methods are outside filter_args' inspected domain.",
         design_ref="2/C07",
     ),
     "C08": dict(
@@ -97,7 +97,7 @@ CHECKS = {
         category="fault_enumeration",
         engine="E4-enumerators",
         technique="exhaustive enumeration of truncation points and suffixes of real dump files with deterministic termination monitors (no-progress detector on the refill loop via sys.monitoring, step budget, RLIMIT_AS)",
-        text="For each (object, compressor, level, protocol) file every truncation length (files <= 4 KiB) or every length in boundary windows (large files) and every suffix from a fixed menu is loaded by the real joblib.load; the same damage is applied to output.pkl of a real Memory entry followed by a cached call. Oracle: an ordinary exception or exactly the original object, never another object, never a hang / MemoryError; the cached call returns the correct value.",
+        text="For each (object, compressor, level, protocol) file every truncation length (files <= 4 KiB) or every length in boundary windows (large files) and every suffix from a fixed menu is loaded by the real joblib.load; the same damage is applied to output.pkl of a real Memory entry (compress x mmap_mode None / 'r' / 'c' [/ 'r+' / 'w+']) followed by two cached calls. Oracle: an ordinary exception or exactly the original object, never another object, never a hang / MemoryError; the cached call returns the correct value.",
         note="Termination is decided by a loop-variant monitor on BinaryZlibFile._fill_buffer plus a step budget of 20x the undamaged load, RLIMIT_AS and a 20 s back-stop; the pure-Python/C pickle opcode loop is trusted to consume input. Damage is applied to the byte string joblib.load sees.",
         design_ref="2/C14",
     ),
@@ -122,7 +122,7 @@ CHECKS = {
         engine="E3-fs-seam (vf/fsmon.py)",
         technique="exhaustive crash-point enumeration: a snapshot of the cache directory before every intercepted file-system call of each workload (every prefix of the mutation sequence), torn-write variants, both directory-listing orders; recovery of every distinct crash state in fresh processes",
         text="Nine workloads (cold call, warm + new call, call after a source change, callback-driven invalidation, call_and_shelve, compressed store, reduce_size, clear, second function in the same directory) run once each under the file-system seam; every distinct on-disk state a kill -9 could leave (including torn variants of files that were growing, identified by inode so that renamed files are never torn) is recovered six ways in fresh forked processes: plain calls, calls with expires_after, call_and_shelve().get(), reduce_size then calls, clear then calls, and loading every output.pkl present. Oracle: correct value of the current code, no exception, every output.pkl under its final name loads.",
-        note="Crash = process death: completed system calls are visible, Python-level buffers are lost. Interception is by sys.monitoring CALL events on the C entry points (no LD_PRELOAD/strace witness in this revision); directory order is patched at os.scandir/os.listdir. Multi-write C calls are approximated by the torn variants.",
+        note="Crash = process death: completed system calls are visible, Python-level buffers are lost. Interception is by sys.monitoring CALL events on the C entry points and is validated at the start of every run by an strace witness (vf/fswitness.py: every mutating system call strace -f sees on the cache directory has a seam event of the same class and file name, unbuffered effects in the same order; a mismatch is a harness error); directory order is patched at os.scandir/os.listdir. Multi-write C calls are approximated by the torn variants.",
         design_ref="1.3, 2/C05",
     ),
     "C12": dict(
